@@ -466,6 +466,41 @@ def r12_3_6(ctx, A):
             sf = ('field', ('param', e.local_name(1), 1), stride_f)
             okst = st[0] == 'bin' and st[1] == 'Mul' and sf in (st[2], st[3]) and any(is_call(x, hs[0].path.rsplit('::', 1)[-1]) or (x[0] == 'call' and x[1] == hs[0].path) for x in (st[2], st[3]))
             oken = en[0] == 'bin' and en[1] == 'Add' and norm(en[2]) == norm(st) and en[3] == sf
+            if not (okst and oken):
+                # any other spelling of the same two numbers (end = stride * (bucket + 1); start = end - stride): compare as polynomials
+                # in the atoms S = stride and B = bucket
+                def poly(x):
+                    x = strip(x)
+                    if x[0] == 'field' and x[2] == '0' and x[1][0] == 'bin' and x[1][1].endswith('WithOverflow'):
+                        x = ('bin', x[1][1][:-len('WithOverflow')], x[1][2], x[1][3])
+                    if x[0] == 'const':
+                        return {(): x[1]} if x[1] else {}
+                    if x == sf:
+                        return {('S',): 1}
+                    if (x[0] == 'call' and x[1] == hs[0].path) or is_call(x, hs[0].path.rsplit('::', 1)[-1]):
+                        return {('B',): 1}
+                    if x[0] == 'bin' and x[1] in ('Add', 'Sub'):
+                        a_, b_ = poly(x[2]), poly(x[3])
+                        if a_ is None or b_ is None:
+                            return None
+                        out_ = dict(a_)
+                        for m_, c_ in b_.items():
+                            out_[m_] = out_.get(m_, 0) + (c_ if x[1] == 'Add' else -c_)
+                        return {m_: c_ for m_, c_ in out_.items() if c_}
+                    if x[0] == 'bin' and x[1] == 'Mul':
+                        a_, b_ = poly(x[2]), poly(x[3])
+                        if a_ is None or b_ is None:
+                            return None
+                        out_ = {}
+                        for m1, c1 in a_.items():
+                            for m2, c2 in b_.items():
+                                m_ = tuple(sorted(m1 + m2))
+                                out_[m_] = out_.get(m_, 0) + c1 * c2
+                        return {m_: c_ for m_, c_ in out_.items() if c_}
+                    return None
+                ps_, pe_ = poly(st), poly(en)
+                if ps_ == {('B', 'S'): 1} and pe_ == {('B', 'S'): 1, ('S',): 1}:
+                    okst = oken = True
             ctx.check(R6, okst and oken, 'row-range', 'a row must be the cells [stride * bucket, stride * bucket + stride): start %s end %s' % (fmt(st)[:60], fmt(en)[:60]), fn=e)
         rej = [p for p in explore(e, max_visits=1) if p.end == 'return' and p.ret()[0] == 'agg' and p.ret()[1].endswith('::Rejected')]
         ctx.check(R6, all(any(is_call(d[2], '::is_empty') and d[3] == 1 for d in p.decisions) for p in rej), 'rejected-only-when-empty', 'the cache may refuse a node only when it has no cells at all', fn=e)
